@@ -34,12 +34,12 @@
 (*  pb_bss.evaluation                                                      *)
 (*    si_sdr, input_sxr, output_sxr, set_snr / get_snr   Metrics            Trace_Metrics                        *)
 (*  pb_bss.utils                      Utils (unsqueeze, labels_to_one_hot, is_broadcast_compatible)   Trace_Utils *)
+(*    reshape (mini-language)         Rsh!Apply, MC_Reshape (exhaustive)    Trace_Utils (reshape; cases = TLC dump) *)
 (*  documented pipeline               Pipeline                              Trace_Pipeline                       *)
 (*                                                                         *)
-(* Not yet specified (growth backlog): pb_bss.utils.reshape mini-language, *)
-(* stack_parameters / to_dict round trips, get_mvdr_vector_merl,           *)
+(* Not yet specified (growth backlog): get_mvdr_vector_merl,               *)
 (* biased_binary_mask, voiced_unvoiced_split_characteristic, BinaryGMM,    *)
-(* samplers, Dirichlet-prior weight variant, Bingham eigenvalue equation,  *)
+(* samplers, Dirichlet-prior weight variant,                               *)
 (* pb_bss.evaluation.wrapper (needs absent third-party packages).          *)
 (***************************************************************************)
 EXTENDS Integers, Sequences
@@ -54,6 +54,7 @@ Metr   == INSTANCE Metrics
 Beam   == INSTANCE Beamform
 Name   == INSTANCE BfName
 UtilsM == INSTANCE Utils
+Rsh    == INSTANCE Reshape
 Dens   == INSTANCE Density
 Pipe   == INSTANCE Pipeline
 ModelM == INSTANCE Model
